@@ -106,11 +106,11 @@ Definition resolve_setitem (state : option aliases) (F : fschema) (key : str) : 
     match comps with [n; f] => TNewNest n f | _ => TRaise end
   else TNewColumn (hd [] comps).
 
-(* reduce: a leading string argument is a column iff known; layer = first component, column = last *)
+(* reduce: a leading string argument is a column iff known; layer = first component, field = the rest joined *)
 Definition resolve_reduce (state : option aliases) (F : fschema) (arg : str) : target :=
   let comps := parse_components state arg in
   if known_column F comps then
-    if length comps <? 2 then TColumn (last comps []) else TField (hd [] comps) (last comps [])
+    if length comps <? 2 then TColumn (hd [] comps) else TField (hd [] comps) (join1 DOT (tl comps))
   else TRaise.
 
 Definition resolve_sort (state : option aliases) (F : fschema) (col : str) : target :=
